@@ -19,7 +19,7 @@ Ported code (all of `rusty_linter/src`, tree after the `fix:` commits fe566ae / 
   need the exact type, by-value ones a castable type, undefined functions numeric arguments) and
   `user_defined_sub_linter.rs`,
 * `converter/statement/assignment.rs` (assignability), `converter/dim_rules/array_dimension.rs`
-  (numeric bounds), `post_linter/{for_next_counter_match_linter, select_case_linter,
+  (numeric bounds), `converter/statement/for_loop.rs` (numeric counter, bounds and step), `post_linter/{for_next_counter_match_linter, select_case_linter,
   condition_type_linter, label_linter}.rs`, `post_linter/main.rs` (`apply_linters`: the order of the passes).
 
 Identifiers are *resolved names* (a key type `κ` with decidable equality and a type `Env.ty`); name
@@ -293,7 +293,12 @@ def convLine (Γ : Env κ) : Line κ → Verdict
   | .label _ _ => none
   | .cond row c => tyErr row (typeOf Γ c)
   | .condEnd _ _ => none
-  | .forHead row _ bounds _ _ => allTyped Γ row bounds
+  | .forHead row v bounds _ _ =>
+    -- `for_loop.rs` `ensure_numeric` (fix 634b5a4): the counter, the bounds and the step are numeric
+    match typesOf Γ bounds with
+    | some ts =>
+      if Γ.ty v != .str && ts.all (fun t => t != .str) then none else some (.typeMismatch, row)
+    | none => some (.typeMismatch, row)
   | .select row e => tyErr row (typeOf Γ e)
   | .case row _ items => allTyped Γ row items
   | .dim row _ bounds =>
